@@ -125,7 +125,6 @@ func seqTasks(prop string, levels []seqLevel) []Task {
 				p := p
 				tasks = append(tasks, Task{Level: lv.Name, Name: fmt.Sprintf("%s %s %v", lv.Name, cfg, p), Fn: func(res *TaskResult) {
 					states := map[uint64]struct{}{}
-					res.count("formula_sequences:"+lv.Name, 0)
 					enumSeq(alpha, lv.Depth, lv.Dev, p, func(seq []Op) bool {
 						announce(func() string { return cfg.String() + " :: " + traceString(seq) })
 						v := lv.Run(cfg, lv.Keys, seq, res)
@@ -154,7 +153,7 @@ func seqTasks(prop string, levels []seqLevel) []Task {
 								return false
 							}
 						}
-						if len(res.Samples) < 1 && len(tasks)%7 == 0 {
+						if len(res.Samples) < 1 {
 							res.Samples = append(res.Samples, cfg.String()+" :: "+traceString(seq))
 						}
 						return true
